@@ -148,6 +148,14 @@ def _t3(ctx, classes, floor):
     return r
 
 
+def _h2(ctx, names, nfn, nout):
+    from .rules import homog
+    r, a, b = homog.rule_H2(ctx, [NSP + c for c in names])
+    r.floor('Forward/Reverse bodies with a scale output', a, nfn)
+    r.floor('outputs typed', b, nout)
+    return r
+
+
 def _c04(ctx):
     from .rules import tab
     out = _exc_rules(ctx, 'C04', with_lookup=False)
@@ -160,6 +168,7 @@ def _c04(ctx):
     s2.floor('Forward/Reverse bodies (UPS projection)', nf2, 2)
     out.append(s2)
     out.append(_x7(ctx, ('src/UTMUPS.cpp',), 0, 0, 1))
+    out.append(_h2(ctx, ('TransverseMercator', 'PolarStereographic'), 4, 16))
     return out
 
 
@@ -266,7 +275,8 @@ def _c06(ctx):
     return [_t1(ctx, 'tm', None, 40),
             _lic(ctx, ['TransverseMercator'], 'L1',
                  'exact-delegation licence in TransverseMercator: Krueger-series members are consumed only when '
-                 '!exact and the exact object only when exact', None, 6)]
+                 '!exact and the exact object only when exact', None, 6),
+            _h2(ctx, ('TransverseMercator', 'TransverseMercatorExact'), 4, 16)]
 
 
 def _c12(ctx):
@@ -361,7 +371,8 @@ def _c11(ctx):
     h1, nset, nmem = homog.rule_H1(ctx, C11_CLASSES)
     h1.floor('SetScale functions', nset, 3)
     h1.floor('scale-carrying members', nmem, 6)
-    return [s2, d1, h1, x5] + _exc_rules(ctx, 'C11', with_lookup=False)
+    return [s2, d1, h1, _h2(ctx, ('PolarStereographic', 'LambertConformalConic'), 4, 16), x5] + \
+        _exc_rules(ctx, 'C11', with_lookup=False)
 
 
 C19_CLASSES = {NSP + c for c in ('SphericalEngine', 'CircularEngine', 'SphericalHarmonic', 'SphericalHarmonic1',
